@@ -12,4 +12,11 @@ package bgp
 //@   requires a != nil
 //@   ensures result == ForPeer(a, peerName)
 //@   modifies nothing
+//@   loop 1 binds peer
 //@   loop 1 invariant forall k int :: 0 <= k && k < iter ==> a.Peers[k] != peerName
+
+// handing advertisements to a session has no effect on the state modelled here (assumed; the session
+// implementations are outside the verified code)
+//@ func (Session).Set
+//@   trusted
+//@   modifies nothing
